@@ -122,7 +122,7 @@ fn ref_read(img: &[u8]) -> Result<(ASet, usize), String> {
 
 pub fn check(c: &mut Case, a: &ASet, name: &str) {
     let lib = to_lib(a);
-    let img = match c.lib("ASetFile::serialize", || lib.serialize()) {
+    let img = match c.lib_stable("ASetFile::serialize", || lib.serialize().map_err(|e| e.to_string())) {
         None => return,
         Some(Err(e)) => {
             let un = |s: &Option<String>| s.as_deref().map(crate::refs::strings::unencodable).unwrap_or(false);
